@@ -64,6 +64,21 @@ func Open(ctx context.Context, st gatebe.State, password string) (*repository.Re
 	return repo, store, nil
 }
 
+// OpenHint is Open with a key hint (--key-hint / RESTIC_KEY_HINT).
+func OpenHint(ctx context.Context, st gatebe.State, password, hint string) (*repository.Repository, error) {
+	LowKDF()
+	store := gatebe.NewStoreFrom(st, nil)
+	be := &gatebe.Backend{S: store, Proc: "oracle", Conns: 2, AtomicReplace: true}
+	repo, err := repository.New(be, repository.Options{})
+	if err != nil {
+		return nil, err
+	}
+	if err := repo.SearchKey(ctx, password, 20, hint); err != nil {
+		return nil, err
+	}
+	return repo, nil
+}
+
 // CheckResult is the outcome of `check --read-data` semantics.
 type CheckResult struct {
 	Errors []string // what runCheck counts as errors ("repository contains errors")
